@@ -24,5 +24,6 @@ Definition chk (c : Z * Z * Z * bytes * bytes * bytes * bytes) : bool :=
   | 15 => let l := splitax s1 s2 in (Z.of_nat (List.length l) =? a) && beqb (joinv l BAR) o
   | 17 => beqb (hex_encode s1) o
   | 18 => match hex_decode s1 with Some r => (a =? 0) && beqb r o | None => a =? 1 end
+  | 19 => Bool.eqb (valid_utf8 s1) (a =? 1)
   | _ => false
   end.
